@@ -662,7 +662,7 @@ namespace c16
   {
     c.event();
     const LD B = bound_factor();
-    Index missing = 0;
+    Index missing = 0, differs = 0;
     for(Index i = 0; i < D.R; ++i) for(Index k = D.rp[i]; k < D.rp[i + 1]; ++k)
     {
       const Index j = D.ci[k]; const LD s = SD.at(i, j);
@@ -678,8 +678,8 @@ namespace c16
       }
       if(!(std::fabs(*pa - D.v[k]) <= B * s + tiny()))
       {
-        c.viol(op, "sparse-differs-from-dense", vh::J().kv("what", what).kv("row", (unsigned long)i).kv("col", (unsigned long)j).kv("sparse", *pa).kv("dense", D.v[k]).kv("bound", B * s).str());
-        return;
+        if(differs++ == 0)
+          c.viol(op, "sparse-differs-from-dense", vh::J().kv("what", what).kv("row", (unsigned long)i).kv("col", (unsigned long)j).kv("sparse", *pa).kv("dense", D.v[k]).kv("bound", B * s).str());
       }
     }
   }
@@ -952,6 +952,30 @@ namespace c16
           if(!(std::fabs(yv[i] - r) <= 2 * bound_factor() * s + tiny()))
           { c.viol(opn, "route-differs", vh::J().kv("what", "BilinearOperatorAssembler::apply1 vs assembled matrix times vector").kv("row", (unsigned long)i).kv("got", yv[i]).kv("expected", r).kv("bound", 2 * bound_factor() * s).str()); break; }
         }
+      }
+    }
+    // --- the extended symbolic patterns (supersets of the standard pattern) must hold the same matrix
+    if(c.rng.coin(0.35))
+    {
+      Matrix_ mx; const bool facet = c.rng.coin();
+      if(facet) Assembly::SymbolicAssembler::assemble_matrix_ext_facet1(mx, space); else Assembly::SymbolicAssembler::assemble_matrix_ext_node1(mx, space);
+      mx.format();
+      Assembly::BilinearOperatorAssembler::assemble_matrix1(mx, op, space, cub);
+      Img AX;
+      if(dec(c, opn, mx, AX, "ext-pattern"))
+      {
+        c.event();
+        const char* pn = facet ? "assemble_matrix_ext_facet1" : "assemble_matrix_ext_node1";
+        bool bad = false;
+        for(Index i = 0; i < A0.R && !bad; ++i) for(Index k = A0.rp[i]; k < A0.rp[i + 1]; ++k)
+          if(!AX.find(i, A0.ci[k])) { c.viol(opn, "coupling-not-in-pattern", vh::J().kv("what", pn).kv("row", (unsigned long)i).kv("col", (unsigned long)A0.ci[k]).kv("value", A0.v[k]).str()); bad = true; break; }
+        for(Index i = 0; i < AX.R && !bad; ++i) for(Index k = AX.rp[i]; k < AX.rp[i + 1]; ++k)
+        {
+          const LD ref = A0.at(i, AX.ci[k]);
+          if(!(std::fabs(AX.v[k] - ref) <= bound_factor() * S.at(i, AX.ci[k]) + tiny()))
+          { c.viol(opn, "route-differs", vh::J().kv("what", std::string(pn) + " pattern vs assemble_matrix_std1 pattern").kv("row", (unsigned long)i).kv("col", (unsigned long)AX.ci[k]).kv("got", AX.v[k]).kv("expected", ref).str()); bad = true; break; }
+        }
+        c.count("extended_pattern_checks");
       }
     }
     // --- dense pattern: the symbolic pattern contains every coupling that receives a value
